@@ -25,6 +25,9 @@ fn nt_c04(_p: &Plan, o: &RunOut) -> bool {
 fn nt_c05(_p: &Plan, o: &RunOut) -> bool {
     faults_fired(o) >= 1
 }
+fn nt_c06(_p: &Plan, o: &RunOut) -> bool {
+    o.probes.spectator_frames >= 50 && (faults_fired(o) >= 1 || o.probes.spectator_catchup_calls >= 1)
+}
 fn nt_c07(p: &Plan, o: &RunOut) -> bool {
     o.probes.frames_first >= 20 && (o.probes.events.get("disconnected").copied().unwrap_or(0) >= 1 || !p.api.is_empty())
 }
@@ -47,6 +50,7 @@ pub const SPECS: &[PropSpec] = &[PropSpec {
     nontrivial: nt_c01,
     required_probes: &["rollbacks", "rollbacks_at_full_window", "stalls_at_prediction_limit", "lists_with_two_loads", "drop_random", "duplicate_random", "reordered_deliveries", "drop_window", "sealed_frames", "input_ring_wraps"],
     assumptions: BASE_ASSUME,
+    twin: None,
 },
 PropSpec {
     id: "C02",
@@ -58,6 +62,7 @@ PropSpec {
     nontrivial: nt_c02,
     required_probes: &["rollbacks", "rollbacks_at_full_window", "stalls_at_prediction_limit", "stalls_lockstep", "lists_with_two_loads", "spectator_frames", "saves"],
     assumptions: BASE_ASSUME,
+    twin: None,
 },
 PropSpec {
     id: "C03",
@@ -69,6 +74,7 @@ PropSpec {
     nontrivial: nt_c03,
     required_probes: &["predicted_inputs", "rollbacks", "sealed_frames", "frames_resimulated"],
     assumptions: BASE_ASSUME,
+    twin: None,
 },
 PropSpec {
     id: "C04",
@@ -80,6 +86,7 @@ PropSpec {
     nontrivial: nt_c04,
     required_probes: &["stalls_at_prediction_limit", "stalls_lockstep", "rollbacks_at_full_window", "drop_window"],
     assumptions: BASE_ASSUME,
+    twin: None,
 },
 PropSpec {
     id: "C05",
@@ -91,6 +98,19 @@ PropSpec {
     nontrivial: nt_c05,
     required_probes: &["drop_explicit", "duplicate_explicit", "delay_explicit", "drop_window", "spectator_frames", "stalls_lockstep", "sealed_frames"],
     assumptions: &["liveness is demanded only after the last injected fault, of sessions that are ticked regularly", "3 s = 15 retry periods of 200 ms", "fault windows stay below the disconnect timeout and below the 128-input cap towards spectators: beyond that a disconnect is the specified outcome"],
+    twin: None,
+},
+PropSpec {
+    id: "C06",
+    level: "exploration",
+    quick_runs: 8000,
+    thorough_runs: 200_000,
+    default_seed: 606,
+    rule: "hosts of 1-3 peers (rollback and lockstep) with 1-2 spectators; spectator tick rate 0.25x-4x the host's, pauses 0.1-3 s, max_frames_behind 1..=59, catchup_speed 1..=70, loss up to 20 % / duplication / 150 % jitter on the host->spectator link, loss on the ack direction; in 40 % of the two-peer runs the other player dies. Every AdvanceFrame of a spectator is checked against the host's confirmed timeline (value, Disconnected status, never beyond the host's confirmed_frame()), the catch-up rule, and the justification of PredictionThreshold / SpectatorTooFarBehind; twin run without the spectators: the players' sealed timelines must be identical. Non-trivial = >= 50 spectator frames and >= 1 fault fired or catch-up call; distinct = distinct executed-schedule hash",
+    nontrivial: nt_c06,
+    required_probes: &["spectator_frames", "spectator_catchup_calls", "spectator_waits", "spectator_too_far_behind", "twin_runs", "drop_random", "disconnected"],
+    assumptions: BASE_ASSUME,
+    twin: Some(crate::twins::c06_twin),
 },
 PropSpec {
     id: "C07",
@@ -102,6 +122,7 @@ PropSpec {
     nontrivial: nt_c07,
     required_probes: &["disconnected", "network_interrupted", "api_calls", "spectator_frames", "rollbacks", "stalls_lockstep"],
     assumptions: BASE_ASSUME,
+    twin: None,
 },
 PropSpec {
     id: "C12",
@@ -113,6 +134,7 @@ PropSpec {
     nontrivial: nt_c12,
     required_probes: &["synchronized", "network_interrupted", "network_resumed", "disconnected", "drop_random", "duplicate_random", "injected_datagrams", "calls_not_synchronized"],
     assumptions: BASE_ASSUME,
+    twin: None,
 },
 PropSpec {
     id: "C13",
@@ -124,6 +146,7 @@ PropSpec {
     nontrivial: nt_c13,
     required_probes: &["synctest_runs_with_detection", "synctest_invalid_configs_tried", "rollbacks"],
     assumptions: &["the injected fault is a game step whose result differs between simulations of the same frame (fresh counter mixed into the state)", "no network, no clock: the technique degenerates to seeded workload + fault + oracle + replay"],
+    twin: None,
 }];
 
 /// Number of runs of a tier (the bounded-exhaustive parts fix their own counts).
